@@ -20,6 +20,8 @@ def scenarios(tier, seed):
 
 def run(tier, seed):
     rep = Report("C09", tier, seed)
+    rep.add_mc("MC_Tracker", tlc.model_check("MC_Tracker", "MC_Tracker.cfg" if tier == "thorough" else "MC_Tracker_quick.cfg", must_take=["Place", "Step"], timeout=3000),
+               note="StaysInWater (inductive step), DeadStayDead, InactiveNotMoved, KilledNotMoved for all masks / positions / displacements")
     scs = scenarios(tier, seed)
     traces = pmap("harness.e2e", "run_e2e", scs)
     rep.add_tv("e2e-coast", "LadimTrace", scs, traces, tlc.validate_traces("LadimTrace", traces, batch_events=1500), family=FAMILY)
